@@ -288,7 +288,8 @@ func parseRespAnswer(ans dns.RR) (hostname string, rrType dnsmsg.RRType, ok bool
 	case *dns.AAAA:
 		return ans.AAAA.String(), dns.TypeAAAA, true
 	case *dns.CNAME:
-		return strings.TrimSuffix(ans.Target, "."), dns.TypeCNAME, true
+		// The rules are matched against lowercase names only.
+		return strings.ToLower(strings.TrimSuffix(ans.Target, ".")), dns.TypeCNAME, true
 	default:
 		return "", dns.TypeNone, false
 	}
